@@ -495,11 +495,14 @@ impl Vm {
                 self.pop();
             }
             self.active_fiber_mut().current_frame_mut().unwrap().ip = self.ip;
+            self.active_fiber_mut().handling_exception = self.handling_exception;
         }
 
         self.unsafe_fiber = (*fiber).as_ptr();
         let caller = self.fiber.replace(fiber.as_root());
         self.active_fiber_mut().caller = caller.map(|p| p.as_gc());
+        let handling_exception = self.active_fiber().handling_exception;
+        self.handling_exception = handling_exception;
 
         if self.active_fiber().is_new() {
             let closure = self.active_fiber().frames[0].closure;
@@ -537,9 +540,12 @@ impl Vm {
         }
         let caller = self.active_fiber().caller;
         if let Some(caller) = caller {
+            self.active_fiber_mut().handling_exception = self.handling_exception;
             let mut current = self.fiber.replace(caller.as_root());
             self.unsafe_fiber = (*caller).as_ptr();
             current.as_mut().unwrap().borrow_mut().caller = None;
+            let handling_exception = self.active_fiber().handling_exception;
+            self.handling_exception = handling_exception;
         } else {
             return Err(error!(
                 ErrorKind::RuntimeError,
